@@ -68,10 +68,10 @@ HASHSEED = {'quick': {'seeds': [0, 1, 2], 'levels': [
      'max_shards': 16, 'max_charts_per_shard': 60},
     {'name': 'H2-N4-M2-K2', 'N': 4, 'M': 2, 'K': 2, 'guards': 0, 'max_shards': 32, 'max_charts_per_shard': 100},
     {'name': 'H3-TN-M1-K2', 'templates': ['TN1', 'TN2'], 'M': 1, 'K': 2, 'nevents': 1, 'guards': 0}]},
-            'thorough': {'seeds': [0, 1, 2, 3, 4], 'levels': [
+            'thorough': {'seeds': [0, 1, 2, 3], 'levels': [
                 {'name': 'H1-TD-M2-K3', 'templates': ['TD'], 'M': 2, 'K': 3, 'nevents': 2, 'hist_target': 1, 'guards': 0},
-                {'name': 'H2-N4-M2-K2', 'N': 4, 'M': 2, 'K': 2, 'guards': 1, 'max_shards': 200},
-                {'name': 'H3-N5-M1-K2', 'N': 5, 'M': 1, 'K': 2, 'guards': 1, 'max_shards': 400},
+                {'name': 'H2-N4-M2-K2', 'N': 4, 'M': 2, 'K': 2, 'guards': 1, 'max_shards': 120},
+                {'name': 'H3-N5-M1-K2', 'N': 5, 'M': 1, 'K': 2, 'guards': 1, 'max_shards': 200},
                 {'name': 'H4-TN-M2-K2', 'templates': ['TN1', 'TN2'], 'M': 2, 'K': 2, 'nevents': 1, 'guards': 0}]}}
 WITNESSES = ['yaml_route', 'api_permuted', 'built_by_editing', 'two_transitions_in_one_step', 'error_in_both', 'orthogonal_exit']
 STUBS = ['guards "G(t, event)" shared by both runs (same z3 constants); entry/exit/action probes log']
